@@ -428,12 +428,25 @@ def fp(kind, detail):
     return "c16:" + kind + ":" + re.sub(r"[^a-zA-Z]+", "-", detail)[:60]
 
 def classify(rej):
-    """stable class of a rejected trace: the kind of the first line the specification could not match"""
+    """stable class of a rejected trace: the kind of the first line the specification could not match, refined for the
+    destructor (what was still outstanding when it returned)"""
     try: e = json.loads(rej["event"])
     except Exception: return "unmatched"
     k = e.get("e", "?")
     extra = ""
     if k in ("PFinished", "PDone"): extra = "-" + str(e.get("status"))
+    if k == "DtorEnd":
+        added, ran, launched, done, serial = set(), set(), set(), set(), False
+        for ln in rej["lines"][:rej["at"]]:
+            try: d = json.loads(ln)
+            except Exception: continue
+            if d.get("e") == "Reset": serial = bool(d["cfg"].get("serial"))
+            elif d.get("e") == "AddStart": added.add(d["j"])
+            elif d.get("e") == "Body": ran.add(d["j"])
+            elif d.get("e") == "ExecProc": launched.add(d["h"])
+            elif d.get("e") == "PDone": done.add(d["h"])
+        extra = "-job-left-behind" if added - ran else "-completion-pending" if launched - done else "-other"
+        if serial: extra += "-serial"
     return k + extra
 
 def run_batch(args):
